@@ -859,7 +859,8 @@ def check_manager(rep, tier, seed):
     todo = edges
     if _SELFTEST:
         calls = [e for e in edges if e["path"][-1]["n"] in MGR_CALLS]
-        todo = rng.sample(calls, 500)
+        keep = [e for e in calls if e["scn"] == "exist"]
+        todo = rng.sample(keep, min(len(keep), 200)) + rng.sample([e for e in calls if e["scn"] != "exist"], 400)
     elif not thorough and len(edges) > MGR_QUICK_EDGES:
         # environment edits are exercised by the longer behaviours anyway: keep every edge that ends with a manager call
         # (the small workflow scenario, which holds the longest behaviours, gets its own share)
@@ -1005,6 +1006,11 @@ def run(rep, tier, seed):
         "letter of the type, else the default U238); no isotope -> temperature group 0",
         "lumped fission products: a member may carry a collection; the new block carries the one of its source (median: a duplicate)",
         "component storage order: blocks may store their components in any order (two components: both orders; three components: all six)",
+        "createRepresentativeBlocksUsingExistingBlocks re-assigns xsType of the listed blocks and adds settings keys by specification; the action "
+        "includes the caller's filling of the returned collections with the listed blocks; updateNuclideTemperatures is only taken when no median "
+        "collection lacks candidates (IndexError in the code; the statement does not define such temperatures)",
+        "symmetry-cut members: blocks placed alone in assemblies of a third-core periodic core (centre: factor 3; both edge positions filled: 2); "
+        "percentBu/massHmBOL/flux are set after placement (Core.add rescales mass-like parameters of the centre assembly)",
         "not modelled: blueprint-only blocks (_getMissingBlueprintBlocks), pre-generated cross sections, the duct-heterogeneous cylinder "
         "variant, slab blocks with a lattice component or reversed component order, averaging of lumped-fission-product yields",
     )
@@ -1210,6 +1216,61 @@ def selftest():
     def cyl_select_first(self):
         return self.getCandidateBlocks()[0]
 
+    def modified_keys_not_values(self, blockList, originalRepresentativeBlocks):
+        """round 2 seed 1: the new types already handed out are not excluded"""
+        import collections as c
+        import copy as cp
+        from armi.physics.neutronics.const import CONF_CROSS_SECTION
+
+        types, newReprs, origOfNew = c.OrderedDict(), c.OrderedDict(), c.OrderedDict()
+        for b in blockList:
+            origXSID = b.getMicroSuffix()
+            if origXSID not in originalRepresentativeBlocks:
+                continue
+            if origXSID[0] not in types:
+                types[origXSID[0]] = self.getNextAvailableXsTypes(excludedXSTypes=types.keys())[0]
+            origOfNew[types[origXSID[0]] + origXSID[1]] = origXSID
+        for newXSID, origXSID in origOfNew.items():
+            newB = cp.deepcopy(originalRepresentativeBlocks[origXSID])
+            newB.p.xsType = newXSID[0]
+            newB.name = "AVG_{}".format(newXSID)
+            newReprs[newXSID] = newB
+            for b in blockList:
+                if b.getMicroSuffix() == origXSID:
+                    b.p.xsType = newXSID[0]
+            self.cs[CONF_CROSS_SECTION][newXSID] = cp.deepcopy(self.cs[CONF_CROSS_SECTION][origXSID])
+            self.cs[CONF_CROSS_SECTION][newXSID].xsID = newXSID
+        return newReprs, origOfNew
+
+    orig_use = MGR.createRepresentativeBlocksUsingExistingBlocks
+
+    def new_collections_lose_filter(self, blockList, originalRepresentativeBlocks):
+        """round 2 seed 5: the valid block types do not reach the new collections"""
+        out = orig_use(self, blockList, originalRepresentativeBlocks)
+        if out is not None:
+            for coll in out[0].values():
+                coll.validRepresentativeBlockTypes = coll._validRepresentativeBlockTypes
+                coll._validRepresentativeBlockTypes = None
+        return out
+
+    def update_temps_only_empty(self, blockCollectionByXsGroup=None):
+        """round 2 seed 4: collections that already have temperatures are not recomputed"""
+        self.avgNucTemperatures = {}
+        colls = blockCollectionByXsGroup or self.makeCrossSectionGroups()
+        for xsID, collection in colls.items():
+            if not collection.avgNucTemperatures:
+                collection.calcAvgNuclideTemperatures()
+            self.avgNucTemperatures[xsID] = collection.avgNucTemperatures
+
+    def burnup_divides_by_height(self):
+        """round 2 seed 2: the volume is taken out of the weight by dividing by the height"""
+        tot = wb = 0.0
+        for b in self.getCandidateBlocks():
+            w = b.p.massHmBOL * self.getWeight(b) / b.getHeight()
+            tot += w
+            wb += w * b.p.percentBu
+        return 0.0 if tot == 0.0 else wb / tot
+
     def new_block_no_copy(self):
         return self.getCandidateBlocks()[0]
 
@@ -1293,6 +1354,10 @@ def selftest():
         ("1-D slab weights taken over all members", lambda: P(SLAB, "_makeRepresentativeBlock", make_weights_over_all(SLAB))),
         ("seed 5: _getAverageComponentNumberDensities uses the storage order of the members", lambda: P(AVG, "_getAverageComponentNumberDensities", comp_dens_unsorted)),
         ("1-D cylinder copies the first candidate, not the median-temperature one", lambda: P(CYL, "_selectCandidateBlock", cyl_select_first)),
+        ("round 2 seed 1: _getModifiedReprBlocks does not exclude the new types already issued", lambda: P(MGR, "_getModifiedReprBlocks", modified_keys_not_values)),
+        ("round 2 seed 2: _calcWeightedBurnup divides by the height instead of the volume", lambda: P(BC, "_calcWeightedBurnup", burnup_divides_by_height)),
+        ("round 2 seed 4: updateNuclideTemperatures skips collections that have temperatures", lambda: P(MGR, "updateNuclideTemperatures", update_temps_only_empty)),
+        ("round 2 seed 5: new collections of the Use workflow lose the valid block types", lambda: P(MGR, "createRepresentativeBlocksUsingExistingBlocks", new_collections_lose_filter)),
         ("_getNewBlock returns the first candidate itself (core block modified)", lambda: P(BC, "_getNewBlock", new_block_no_copy)),
         ("_checkValidWeightingFactors accepts mixed zero/non-zero flux", lambda: P(BC, "_checkValidWeightingFactors", no_weight_check)),
         ("_updateEnvironmentGroups: bu < upper instead of <=", lambda: P(MGR, "_updateEnvironmentGroups", env_strict_bound)),
